@@ -13,6 +13,8 @@ def x_only(prop, level="proof", explanation=None):
         run_x(out, progs, prop)
         if prop in ("C06", "C11"):
             gen.add_obligations(out, prop)
+        if prop == "C11":
+            standins.c11_above_top(out)
         from . import meta, pt
         meta.add_obligations(out, prop)
         if prop in ("C01", "C02", "C03", "C04", "C05", "C16"):
